@@ -12,7 +12,7 @@ func init() { props["C04"] = runC04 }
 
 func runC04(ctx *Ctx) error {
 	r, res := ctx.Rng, ctx.Res
-	res.Rule = "for each message (several sizes, with and without attachments) and data-block size, the transfer SOH..EOT as sent by a conforming master is altered in transit: every single-byte substitution at every offset (quick: two values per offset, thorough: eight), every single-byte deletion, insertions at every offset, checksum-compensating pairs (+d at i, -d at j), and checksum-compensating changes of the payload's embedded CRC-16 (forced to 0000, ffff, swapped) and size field; the same in the first transfer of a block of two accepted messages, the second being intact; payloads altered in two bytes so that the embedded CRC-16 still holds (collisions found through the CRC's linearity) and re-framed. The altered stream is fed to a real slave Session; its answer stream is fed to a real master Session holding the message. Oracle: a message handed to the inbound handler is byte-identical to the queued one (alterations that leave the payload intact, e.g. in the title, are the ones an independent reference accepts too), otherwise nothing is delivered; the sender records the message as sent only if the receiver delivered it. Correspondence: the receiving side vs the model side on the same altered bytes. Non-trivial: alteration inside the framed payload; distinct by (message, alteration)."
+	res.Rule = "for each message (several sizes, with and without attachments) and data-block size, the transfer SOH..EOT as sent by a conforming master is altered in transit: every single-byte substitution at every offset (quick: two values per offset, thorough: eight), every single-byte deletion, insertions at every offset, checksum-compensating pairs (+d at i, -d at j), and checksum-compensating changes of the payload's embedded CRC-16 (forced to 0000, ffff, swapped) and size field; the same in the first transfer of a block of two accepted messages, the second being intact; the same in a block that proposes one message twice (one transfer); payloads altered in two bytes so that the embedded CRC-16 still holds (collisions found through the CRC's linearity) and re-framed. The altered stream is fed to a real slave Session; its answer stream is fed to a real master Session holding the message. Oracle: a message handed to the inbound handler is byte-identical to the queued one (alterations that leave the payload intact, e.g. in the title, are the ones an independent reference accepts too), otherwise nothing is delivered; the sender records the message as sent only if the receiver delivered it. Correspondence: the receiving side vs the model side on the same altered bytes. Non-trivial: alteration inside the framed payload; distinct by (message, alteration)."
 	var lines, impl []string
 	var cases []interface{}
 	nmsg := ctx.N(3, 12)
@@ -331,6 +331,71 @@ func runC04(ctx *Ctx) error {
 				if oa.Res != "panic" && oa.Res != "hang" && oa.Handler.sent[mid] > 0 && !delivered {
 					res.Fail(Failure{Kind: "oracle", Site: "sent-but-not-delivered", Case: cs, Detail: mid})
 				}
+			}
+			lines = append(lines, slave.modelLine(b))
+			impl = append(impl, ob.String())
+			cases = append(cases, cs)
+		}
+	}
+	// a block in which the SAME message is proposed twice (the sender holds two copies, as Radio
+	// Only gateways do) and the one transfer is damaged: the copy that was not transferred must not
+	// make the sender record the message as sent (neither delivered nor rejected by the receiver)
+	for bi := 0; bi < ctx.N(3, 10); bi++ {
+		mid := r.Mid()
+		m := r.Message("LA5NTA", mid)
+		w, _ := m.Bytes()
+		cd := compressB2(w)
+		l := fmt.Sprintf("FC EM %s %d %d 0", mid, len(w), len(cd))
+		sum := 0
+		for i := 0; i < len(l); i++ {
+			sum += 2 * int(l[i])
+		}
+		sum += 2 * '\r'
+		var sb bytes.Buffer
+		sb.WriteString("[WL2K-5.0-B2FWIHJM$]\rCMS>\r" + l + "\r" + l + "\r")
+		fmt.Fprintf(&sb, "F> %02X\r", (-sum)&0xff)
+		sb.Write(frames("title", "0", cd, 250))
+		sb.WriteString("FF\r")
+		stream := sb.Bytes()
+		lo := bytes.Index(stream, []byte("\r\x01")) + 1
+		q := bytes.IndexByte(stream[lo:], 0x02)
+		if q < 0 || len(cd) < 16 {
+			continue
+		}
+		first := lo + q + 2
+		slave := sideCfg{Master: false, Mycall: "LA1B", Target: "LA5NTA", Locator: "JO59jw", Handler: true, Policy: map[string]fbb.ProposalAnswer{}, Fail: map[string]bool{}}
+		master := sideCfg{Master: true, Mycall: "LA5NTA", Target: "LA1B", Locator: "JP20qh", Handler: true, Outbox: []*fbb.Message{m, m}, Policy: map[string]fbb.ProposalAnswer{}, Fail: map[string]bool{}}
+		for _, variant := range []string{"pair", "unaltered"} {
+			b := append([]byte(nil), stream...)
+			if variant == "pair" {
+				d := byte(1 + r.Intn(255))
+				b[first+7] += d
+				b[first+9] -= d
+			}
+			altered := !bytes.Equal(b, stream)
+			cs := map[string]interface{}{"block": "the same message proposed twice, one transfer", "alteration": variant, "mid": mid}
+			ctx.Mark(cs)
+			ob := runSide(slave, b, 0)
+			res.Eval(fmt.Sprintf("dup:%d:%s", bi, variant), altered)
+			res.Count("duplicate-proposal-block:" + variant)
+			if ob.Res == "panic" || ob.Res == "hang" {
+				res.Fail(Failure{Kind: "oracle", Site: "receiver-" + ob.Res, Case: cs, Detail: ob.Err})
+				continue
+			}
+			var raw []byte
+			for _, wr := range ob.Writes {
+				raw = append(raw, wr...)
+			}
+			oa := runSide(master, raw, 0)
+			delivered := ob.Handler.processed[mid] > 0
+			if delivered && !bytes.Equal(ob.Handler.inbox[mid], w) {
+				res.Fail(Failure{Kind: "oracle", Site: "damaged-message-delivered", Case: cs, Detail: mid})
+			}
+			if !altered && !delivered {
+				res.Fail(Failure{Kind: "oracle", Site: "unaltered-not-delivered", Case: cs, Detail: mid + " " + ob.Res + " " + ob.Err})
+			}
+			if oa.Res != "panic" && oa.Res != "hang" && oa.Handler.sent[mid]+oa.Handler.rejected[mid] > 0 && !delivered {
+				res.Fail(Failure{Kind: "oracle", Site: "sent-but-not-delivered", Case: cs, Detail: fmt.Sprintf("%s: SetSent(false) x%d, SetSent(true) x%d, receiver result %s", mid, oa.Handler.sent[mid], oa.Handler.rejected[mid], ob.Res)})
 			}
 			lines = append(lines, slave.modelLine(b))
 			impl = append(impl, ob.String())
